@@ -639,7 +639,7 @@ async def _dump_db(context) -> dict:
     return out
 
 
-def run_spec(spec: dict, seed: int, workdir: str, timeout: float = 60.0, shuffle: bool = True, settle: float = 2.0) -> dict:
+def run_spec(spec: dict, seed: int, workdir: str, timeout: float = 60.0, shuffle: bool = True, settle: float = 1.0) -> dict:
     """one run of the spec on the real engine under the PRNG schedule `seed`"""
     os.makedirs(workdir, exist_ok=True)
     result: dict[str, Any] = {"seed": seed}
@@ -711,6 +711,14 @@ def run_spec(spec: dict, seed: int, workdir: str, timeout: float = 60.0, shuffle
                                                   for t in port.token_list]}
                                   for pn, port in st.get_input_ports().items()}}
                 for name, st in workflow.steps.items() if isinstance(st, LoopCombinatorStep)}
+
+            if result["outcome"]["kind"] == "hang":
+                # a state that is a dead-lock by inspection (not only by the clock): an unterminated LoopCombinatorStep with
+                # a FAILED / CANCELLED termination on one input port and a non-empty checklist on another
+                for lc in result["loop_combinators"].values():
+                    bad_in = [p for p, v in lc["inputs"].items() if any(t in ("FAILED", "CANCELLED") for t in v["terminations"])]
+                    if not lc["terminated"] and bad_in and any(v and p not in bad_in for p, v in lc["checklist"].items()):
+                        result["known_deadlock_state"] = True
 
             # let finishing tasks settle (the last `_set_status` of a step is a database await served by a thread)
             def workflow_tasks():
